@@ -130,7 +130,7 @@ def _cfm(spec, j):
   rng = rng_for('c20cfm', spec['seed'], spec['i'])
   classes = ['pd', 'wide', 'lowrank', 'zero', 'near', 'near', 'indefinite',
              'diag', 'diag-neg', 'diag-tiny', 'asym-small', 'asym-large',
-             'block-tiny']
+             'block-tiny', 'sym-to-rounding']
   for t in range(spec['n']):
     d = int(rng.randint(1, 9))
     tol = [None, 0.0, 1e-10, 1e-3][int(rng.randint(4))]
@@ -166,6 +166,20 @@ def _cfm(spec, j):
         G[d - 2:, d - 2:] = [[c_, -s_], [s_, c_]]
         M = G.dot(M).dot(G.T)
         M = (M + M.T) / 2
+    elif klass == 'sym-to-rounding':
+      # symmetric only up to rounding, with entries whose exact value is 0
+      # (a numerically inverted Markov covariance; a diagonal matrix with a
+      # one-sided residue): M[i, j] and M[j, i] are then unrelated residues
+      d = max(d, 3)
+      if rng.randint(2):
+        rho = float(rng.uniform(0.2, 0.8))
+        Cm = rho ** np.abs(np.subtract.outer(np.arange(d), np.arange(d)))
+        M = [np.linalg.inv, np.linalg.pinv][int(rng.randint(2))](Cm) * \
+            10.0 ** rng.uniform(-3, 3)
+      else:
+        M = np.diag(10.0 ** rng.uniform(-2, 2, size=d))
+        M[0, d - 1] = M.max() * 1e-18
+        M[1, 0] = -M.max() * 3e-19
     elif klass.startswith('asym'):
       M = sym_matrix(rng, max(d, 2), 'pd', tol)
       delta = 1e-12 if klass == 'asym-small' else 1e-3
